@@ -46,31 +46,44 @@ func typeBits(t types.Type) int {
 
 // splitIndex canonicalises an index expression into symbolic text + constant.
 func splitIndex(info *types.Info, e ast.Expr) (string, int64) {
-	if c, ok := constInt(info, e); ok {
-		return "", c
-	}
-	if p, ok := e.(*ast.ParenExpr); ok {
-		return splitIndex(info, p.X)
-	}
-	if be, ok := e.(*ast.BinaryExpr); ok {
-		if be.Op == token.ADD {
-			if c, ok := constInt(info, be.Y); ok {
-				s, o := splitIndex(info, be.X)
-				return s, o + c
+	// the index as a sum: constant part, and the other terms in a canonical order
+	var c int64
+	var terms []string
+	var walk func(e ast.Expr, neg bool)
+	walk = func(e ast.Expr, neg bool) {
+		if v, ok := constInt(info, e); ok {
+			if neg {
+				c -= v
+			} else {
+				c += v
 			}
-			if c, ok := constInt(info, be.X); ok {
-				s, o := splitIndex(info, be.Y)
-				return s, o + c
+			return
+		}
+		switch x := e.(type) {
+		case *ast.ParenExpr:
+			walk(x.X, neg)
+			return
+		case *ast.BinaryExpr:
+			if x.Op == token.ADD {
+				walk(x.X, neg)
+				walk(x.Y, neg)
+				return
+			}
+			if x.Op == token.SUB {
+				walk(x.X, neg)
+				walk(x.Y, !neg)
+				return
 			}
 		}
-		if be.Op == token.SUB {
-			if c, ok := constInt(info, be.Y); ok {
-				s, o := splitIndex(info, be.X)
-				return s, o - c
-			}
+		t := types.ExprString(e)
+		if neg {
+			t = "-" + t
 		}
+		terms = append(terms, t)
 	}
-	return types.ExprString(e), 0
+	walk(e, false)
+	sort.Strings(terms)
+	return strings.Join(terms, "+"), c
 }
 
 // byteLoadTerm recognises conv(base[idx]) [<< s].
@@ -148,7 +161,15 @@ func byteStoreTerm(info *types.Info, e ast.Expr) (src string, shift int64, ok bo
 	}
 	if be, isBE := a.(*ast.BinaryExpr); isBE && be.Op == token.SHR {
 		if s, isC := constInt(info, be.Y); isC {
-			return types.ExprString(be.X), s, true
+			x := be.X
+			for {
+				pe, isP := x.(*ast.ParenExpr)
+				if !isP {
+					break
+				}
+				x = pe.X
+			}
+			return types.ExprString(x), s, true
 		}
 		return "", 0, false
 	}
@@ -261,6 +282,10 @@ func beWriteRuns(w *World, r *Report, info *types.Info, name string, elts []ast.
 	}
 	var run []el
 	flush := func() {
+		if len(run) == 1 && run[0].shift > 0 && run[0].shift%8 == 0 {
+			key := r.MkKey("bigendian/write", name, fmt.Sprintf("1-byte write of %s", run[0].src))
+			r.FailC("bigendian/write", key, []string{"incomplete"}, w.Pos(run[0].pos), fmt.Sprintf("byte(%s >> %d) is written without the lower byte(s) of %s next to it: the field is incomplete", run[0].src, run[0].shift, run[0].src), nil)
+		}
 		if len(run) >= 2 {
 			key := r.MkKey("bigendian/write", name, fmt.Sprintf("%d-byte write of %s", len(run), run[0].src))
 			bad := ""
@@ -307,6 +332,10 @@ func beStoreRuns(w *World, r *Report, info *types.Info, name string, list []ast.
 	}
 	var run []st
 	flush := func() {
+		if len(run) == 1 && run[0].shift > 0 && run[0].shift%8 == 0 {
+			key := r.MkKey("bigendian/write", name, fmt.Sprintf("1-byte store of %s into %s", run[0].src, run[0].base))
+			r.FailC("bigendian/write", key, []string{"incomplete"}, w.Pos(run[0].pos), fmt.Sprintf("byte(%s >> %d) is stored without the lower byte(s) of %s behind it: the field is incomplete (the missing byte stays 0)", run[0].src, run[0].shift, run[0].src), nil)
+		}
 		if len(run) >= 2 {
 			sort.SliceStable(run, func(i, j int) bool { return run[i].off < run[j].off })
 			key := r.MkKey("bigendian/write", name, fmt.Sprintf("%d-byte store of %s into %s", len(run), run[0].src, run[0].base))
